@@ -5,3 +5,4 @@ import Sp.Lineage
 import Sp.Tracklet
 import Sp.J
 import Sp.MockEdges
+import Sp.Store
